@@ -53,8 +53,8 @@ def parse_case(line):
 
 def judge(line, ans):
     """does the implementation's answer on this case satisfy C09 as stated?
-    returns (verdict, why, defect): verdict in HOLD / FAIL / UNKNOWN; defect = the finding whose class the
-    case falls in when the verdict is FAIL and the case lies in a class the _outside theorems exclude"""
+    returns (verdict, why, defect): verdict in HOLD / FAIL / UNKNOWN; defect = the known finding (F18, F22) whose
+    class the case falls in when the verdict is FAIL and the theorems say that the model fails there too"""
     c = parse_case(line)
     op = c["op"]
     if op == "sepv":
@@ -94,12 +94,11 @@ def judge(line, ans):
             if C.rfc_parse(sep, out) == [hdr]:
                 return "HOLD", "header-only table written", None
             return "FAIL", "table without rows: the header line is not written (output %r does not parse back to the header)" % out[:40], "F22"
-        has_f21 = any(C.CR in f and not any(x in (C.DQ, sep, C.LF) for x in f) for r in table for f in r)
         if C.rfc_parse(sep, out) != table:
-            return "FAIL", "an RFC 4180 parser does not recover the table from the output", ("F21" if has_f21 else None)
+            return "FAIL", "an RFC 4180 parser does not recover the table from the output", None
         minimal = C.rfc_render(sep, table, [[C.needs_quote(sep, f) for f in r] for r in table], ["CRLF"] * len(table), True)
         if out != minimal:
-            return "FAIL", "output parses back but fields are not quoted exactly when needed / CRLF-terminated", ("F21" if has_f21 else None)
+            return "FAIL", "output parses back but fields are not quoted exactly when needed / CRLF-terminated", None
         return "HOLD", "output parses back to the table; quoted iff needed", None
     if op == "csvr":
         text = c["text"]
@@ -116,29 +115,17 @@ def judge(line, ans):
             return "UNKNOWN", "text is not RFC 4180 conformant; C09 demands nothing beyond a clean report", None
         table, flags = pq
         hdr, recs = table[0], table[1:]
-        f24 = (mode == "mem" and text[-1:] == bytes([sep]))
         if any(len(r) != len(hdr) for r in recs):
             if ans == "EXC:ParsingError":
                 return "HOLD", "record of a different width rejected", None
-            return "FAIL", "a record's field count differs from the header but the text was not rejected", ("F24" if f24 else None)
+            return "FAIL", "a record's field count differs from the header but the text was not rejected", None
         keys = c["keys"]
         if len(set(hdr)) != len(hdr):
             return "UNKNOWN", "duplicate header names: reading by name is not defined", None
         want = C.fmt_cells(C.select(hdr, keys, recs))
         if ans == want:
             return "HOLD", "rows loaded exactly", None
-        defect = None
-        if f24:
-            defect = "F24"
-        elif mode == "stream":
-            for i, r in enumerate(recs):
-                for j in range(len(hdr)):
-                    if flags[i + 1][j] and hdr[j] in keys:
-                        if j >= 1:
-                            defect = "F23"
-                        elif keys.count(hdr[j]) >= 2 and defect is None and r[j] != b"":
-                            defect = "F25"
-        return "FAIL", "RFC 4180 rendering of a table not loaded to its rows: expected %s" % want[:80], defect
+        return "FAIL", "RFC 4180 rendering of a table not loaded to its rows: expected %s" % want[:80], None
     return "UNKNOWN", "unknown op", None
 
 
@@ -414,7 +401,7 @@ def run(ctx, vlib):
             elif len(diffs) < 20:
                 diffs.append(rec)
         elif verdict == "FAIL" and defect is None and len(diffs) < 20:
-            # model and code agree, the property fails, and the case is in no class the _outside theorems exclude:
+            # model and code agree, the property fails, and the case is in no class the theorems name (F18, F22):
             # the Python reading of the property and the Coq theorems disagree
             diffs.append(dict(driver="csv", case=line, implementation=a[:400], model=b[:400], judge=verdict,
                               why="property fails on model and implementation alike outside every recorded defect class: " + why))
@@ -448,7 +435,7 @@ def run(ctx, vlib):
     notes = []
     unlisted = sorted(set(k.split(":")[2] for k in classes if k.startswith("judge:FAIL:") and not k.endswith("unclassified")) - known_ids)
     if unlisted:
-        notes.append("defect classes met by generated cases (model = implementation, property fails, excluded by the _outside theorems) "
+        notes.append("defect classes met by generated cases (model = implementation, property fails, class named by a _refuted theorem) "
                      "that have no 'known' entry in known_findings.jsonl yet: " + ", ".join(unlisted))
     return dict(evaluations=len(cases), distinct_nontrivial=nt, samples=samples, classes=classes, failing=failing, diffs=diffs,
                 known_lines=known_lines, rule=RULE, exhaustive=False, notes=notes,
